@@ -38,7 +38,7 @@ ASSUMPTIONS = [
 ]
 TIERS = {"quick": (160, 80, 120), "thorough": (10000, 600, 180)}
 
-KEEP_CANDIDATES = ["power", "flux", "vP0", "vP1", "vF0", "temperatureInC", "numberDensities", "height", "keff", "vSent", "mgFlux", "vP2"]
+KEEP_CANDIDATES = ["power", "flux", "vP0", "vP1", "vF0", "temperatureInC", "numberDensities", "height", "keff", "vSent", "mgFlux", "vP2", "id"]
 SET_PARAMS = ["vP0", "vP1", "vP2", "vF0", "vI0", "vS0", "vSent"]
 
 
@@ -69,7 +69,10 @@ def gen_plan(rng, index, tier):
         elif r < 0.215 and r >= 0.205:
             # a linked dimension gets a number of its own (the link is gone until the scope ends)
             steps.append({"op": "unlink", "idx": rng.randrange(1000), "factor": rng.choice([0.995, 1.0])})
-        elif r < 0.205:
+        elif r >= 0.195 and r < 0.205:
+            # a scope on one component only: its temperature changes, the neighbours are looked at
+            steps.append({"op": "compscope", "idx": rng.randrange(1000), "T": rng.choice([300.0, 450.0, 600.0]), "lookInside": rng.random() < 0.8})
+        elif r < 0.195:
             # a dimension assigned directly (no setter, nothing invalidated) and the block's area looked at
             steps.append({"op": "dimcache", "idx": rng.randrange(1000), "factor": rng.choice([0.97, 0.99, 1.02])})
         elif r < 0.28 and depth > 0:
@@ -92,7 +95,7 @@ def gen_plan(rng, index, tier):
         elif r < 0.92:
             steps.append({"op": "cache", "idx": rng.randrange(1000)})
         elif r < 0.96:
-            steps.append({"op": "copy", "level": rng.choice(["assembly", "block", "component"]), "idx": rng.randrange(1000), "u": uid})
+            steps.append({"op": "copy", "level": rng.choice(["assembly", "block", "component"]), "idx": rng.randrange(1000), "u": uid, "paramcopy": rng.choice([None, None, "update", "copy"])})
         else:
             steps.append({"op": "pickle", "level": rng.choice(["assembly", "block"]), "idx": rng.randrange(1000), "u": uid})
     if readonly:
@@ -399,6 +402,28 @@ class Runner:
                 c.parent.getArea()
                 self.edits += 1
                 self.probe("direct_dimension_assignments")
+        elif op == "compscope" and not self.readonly:
+            from armi.reactor.blocks import Block
+
+            comps = [c for c in c06.objects_at_level(r, "component") if isinstance(c.parent, Block) and c.containsSolidMaterial()]
+            if comps:
+                c = comps[st["idx"] % len(comps)]
+                b = c.parent
+                b.clearCache()
+                before = [float(x.getVolume()) for x in b]
+                with c.retainState():
+                    c.setTemperature(st["T"])
+                    if st.get("lookInside", True):
+                        [x.getVolume() for x in b]
+                after = [float(x.getVolume()) for x in b]
+                self.probe("scope_on_one_component_neighbours_looked_at")
+                if any(abs(x - y) > 1e-9 * max(1.0, abs(x)) for x, y in zip(before, after)):
+                    bad = [(x.name, u, v) for x, u, v in zip(b, before, after) if abs(u - v) > 1e-9 * max(1.0, abs(u))]
+                    self.fail(
+                        "C16.cache",
+                        f"scope on the component {c.name} of {b.getName()} (temperature changed and undone inside): the volumes of its neighbours computed inside the scope leaked out: {bad[:3]} (name, before, after)",
+                        what="neighbour-volume",
+                    )
         elif op == "cache":
             comps = c06.objects_at_level(r, "component")
             c = comps[st["idx"] % len(comps)]
@@ -444,6 +469,22 @@ class Runner:
         # linked dimensions stay inside the family: a link of a component of the copy must point at a
         # sibling inside the copy (never at the original, a prototype or any third object)
         self.check_links(copy_objs, f"deep copy of {type(o).__name__}")
+        if st.get("paramcopy"):
+            # the copy then takes over the original's parameter values wholesale (both objects stay alive)
+            if st["paramcopy"] == "update":
+                cp.updateParamsFrom(o)
+            else:
+                cp.copyParamsFrom(o)
+            self.probe("parameters_taken_over_from_another_object")
+            sn = int(cp.p.serialNum)
+            if sn == int(o.p.serialNum) or sn in live_before:
+                self.fail("C16.serial", f"after {'updateParamsFrom' if st['paramcopy'] == 'update' else 'copyParamsFrom'} the {type(o).__name__} copy carries the serial number {sn} of a live object", what="paramcopy")
+            sa, sb = obj_state(o), obj_state(cp)
+            sa.pop("p.serialNum", None)
+            sb.pop("p.serialNum", None)
+            if sa != sb:
+                k = next(kk for kk in sa if sa[kk] != sb.get(kk))
+                self.fail("C16.copy", f"after taking over the parameters of the original the copy differs in {type(o).__name__}.{k}: {str(sa[k])[:120]} vs {str(sb.get(k))[:120]}", what="paramcopy-values", field=k)
         # independence: edit the copy, the original must not move; edit the original, the copy must not move
         tgt = copy_objs[st["u"] % len(copy_objs)]
         tgt.p.vP3 = 777.0 + st["u"]
